@@ -42,6 +42,7 @@ type World struct {
 	LemmaUses  map[string]map[string]bool
 	initPhase  bool
 	concreteMode bool
+	FuncErrors map[string]string // functions whose obligations could not be generated
 }
 
 func LoadWorld(repo string, tags string, overlay map[string][]byte, patterns []string) (*World, error) {
